@@ -4,6 +4,7 @@ import json, os, traceback2, time
 import copy
 from flask import request
 from flask.json import jsonify
+from werkzeug.exceptions import HTTPException
 from pstats import Stats
 import cProfile
 
@@ -456,6 +457,20 @@ def check_theory():
 
     res = monitor.check_theory(filename, username, rewrite=data['rewrite'])
     return jsonify(res)
+
+
+@app.errorhandler(Exception)
+def handle_exception(e):
+    """Report errors in the JSON answer instead of failing with HTTP 500."""
+    if isinstance(e, HTTPException):
+        return e
+    return jsonify({
+        "error": {
+            "err_type": e.__class__.__name__,
+            "err_str": str(e),
+            "trace": traceback2.format_exc()
+        }
+    })
 
 
 # Initialization
